@@ -298,10 +298,10 @@ def lean_build_and_audit(prop, thorough=False):
     txt = p.stdout + p.stderr
     res["log"] = txt[-3000:]
     ok = {}
-    for m in re.finditer(r"'([^']+)' depends on axioms: \[([^\]]*)\]", txt, flags=re.S):
+    for m in re.finditer(r"^'(.+)' depends on axioms: \[([^\]]*)\]", txt, flags=re.M):
         ax = {a.strip() for a in m.group(2).replace("\n", " ").split(",") if a.strip()}
         ok[m.group(1)] = ax
-    for m in re.finditer(r"'([^']+)' does not depend on any axioms", txt):
+    for m in re.finditer(r"^'(.+)' does not depend on any axioms", txt, flags=re.M):
         ok[m.group(1)] = set()
     for t in thms:
         if t in ok and ok[t] <= ALLOWED_AXIOMS:
@@ -454,9 +454,12 @@ def finish(res, audit, level, rule, assumptions, known, extra_cov=None, thm_note
             else:
                 res.notes.append("listed finding %s not reproduced in this run" % k["signature"])
     seen = set()
+    have_input = any(not ni for _, ni in res.violations)
     for path, no_input in res.violations:
         if path in seen:
             continue
+        if no_input and have_input:
+            continue          # a concrete failing input exists: report that one, not the broken tie
         seen.add(path)
         code = 1
         print("VIOLATION property=%s replay=%s%s" % (prop, path, " no-failing-input-found" if no_input else ""))
